@@ -176,6 +176,80 @@ def o_matrix(spec):
     return {"classes": ["kind:" + spec["kind"], "n:%d" % n], "nontrivial": bool(ycomp) or spec["kind"] in ("complex", "hermitian")}
 
 
+# ---------------------------------------------------------------- wide registers (matrix-free reference)
+
+
+def _apply_canon(canon, n, v):
+    out = np.zeros_like(v)
+    for key, cf in canon.items():
+        w = v
+        for q, letter in key:
+            w = ref.embed_apply(ref.PAULI[letter], [q], n, w)
+        out = out + cf * w
+    return out
+
+
+@st.composite
+def wide_cases(draw, tier):
+    top = draw(st.integers(7, 10 if tier == "quick" else 12))
+    ts = []
+    letters = draw(st.sampled_from(["XYZ", "XYZ", "Z"]))
+    for _ in range(draw(st.integers(1, 3))):
+        qs = draw(st.lists(st.integers(0, top), unique=True, min_size=1, max_size=4))
+        if draw(st.booleans()):
+            qs = sorted(set(qs) | {top})
+        ts.append({"ops": [[q, draw(st.sampled_from(letters))] for q in sorted(qs)],
+                   "c": draw(pgen.coefs(zero=False))})
+    if not any(q == top for t in ts for q, _ in t["ops"]):
+        ts[0]["ops"] = sorted(ts[0]["ops"] + [[top, "Y" if letters != "Z" else "Z"]])
+    as_term = len(ts) == 1 and draw(st.booleans())
+    return {"op": {"t": ts[0]} if as_term else {"s": {"terms": ts}}, "pad": draw(st.integers(0, 1)), "sseed": draw(st.integers(0, 10 ** 6))}
+
+
+def o_wide(spec):
+    from orquestra.quantum.operators import (expectation, get_expectation_value, get_sparse_operator,
+                                             hermitian_conjugated, reverse_qubit_order)
+    from orquestra.quantum.wavefunction import Wavefunction
+
+    op = pgen.build_operand(spec["op"])
+    can = pgen.canon_operand(spec["op"])
+    n = pgen.canon_width(can) + spec["pad"]
+    scale = max(1.0, pgen.canon_norm(can))
+    S = must(lambda: get_sparse_operator(op, n_qubits=n), "get_sparse_operator")
+    require(S.shape == (2 ** n, 2 ** n), lambda: f"shape {S.shape} for n={n}")
+    rs = np.random.RandomState(spec["sseed"])
+    perm = ref.bit_reverse_perm(n)
+    r1 = must(lambda: reverse_qubit_order(op, n_qubits=n), "reverse_qubit_order")
+    S1 = must(lambda: get_sparse_operator(r1, n_qubits=n), "get_sparse_operator(reversed)")
+    hc = must(lambda: hermitian_conjugated(op), "hermitian_conjugated")
+    hcan = pgen.canon_of(hc)
+    for i in range(3):
+        v = rs.normal(size=2 ** n) + 1j * rs.normal(size=2 ** n)
+        if i == 0:
+            v = np.zeros(2 ** n, dtype=complex)
+            v[rs.randint(2 ** n)] = 1
+        v = v / np.linalg.norm(v)
+        want = _apply_canon(can, n, v)
+        got = S @ v
+        require(np.max(np.abs(got - want)) <= 1e-10 * scale, lambda: f"sparse matrix on {n} qubits acts differently from the tensor-product definition, max|d|={np.max(np.abs(got - want)):.3g}")
+        # bit reversal: (P M P) v = P M (P v)
+        got1 = S1 @ v
+        want1 = _apply_canon(can, n, v[perm])[perm]
+        require(np.max(np.abs(got1 - want1)) <= 1e-10 * scale, "reverse_qubit_order is not the bit-reversal permutation of the matrix")
+        # adjoint: <u, M v> = <M^dagger u, v>
+        u = rs.normal(size=2 ** n) + 1j * rs.normal(size=2 ** n)
+        lhs = np.vdot(u, want)
+        rhs = np.vdot(_apply_canon(hcan, n, u), v)
+        require(abs(lhs - rhs) <= 1e-9 * scale * np.linalg.norm(u), "hermitian_conjugated does not denote the conjugate transpose")
+        ev = must(lambda: get_expectation_value(op, Wavefunction(v.copy())), "get_expectation_value")
+        require(abs(ev - np.vdot(v, want)) <= 1e-9 * scale, lambda: f"get_expectation_value {ev} != quadratic form {np.vdot(v, want)}")
+        ev2 = must(lambda: expectation(S, v.copy()), "expectation(sparse, state)")
+        require(abs(ev2 - np.vdot(v, want)) <= 1e-9 * scale, lambda: f"expectation {ev2} != quadratic form")
+    hasY = any(p == "Y" for k in can for _, p in k)
+    zonly = all(p == "Z" for k in can for _, p in k)
+    return {"classes": ["n:%d" % n] + (["z_type"] if zonly else []), "nontrivial": hasY or zonly}
+
+
 SUBCHECKS = [
     SubCheck("sparse_exhaustive", o_sparse_exh, enumerate=enum_strings, exhaustive=True, shards=(2, 2),
              rule="all Pauli strings on <=3 qubits x widths own..own+2: get_sparse_operator == Kronecker definition"),
@@ -184,4 +258,6 @@ SUBCHECKS = [
     SubCheck("from_matrix", o_matrix, strategy=mat_cases, examples=(150, 600), shards=(4, 12),
              rule="get_sparse_operator(get_pauliop_from_matrix(A)) == A"),
 ]
+SUBCHECKS.append(SubCheck("wide_operators", o_wide, strategy=wide_cases, examples=(200, 1000), shards=(4, 12),
+                          rule="terms / sums reaching qubit 7..10 (12 thorough): sparse matrix, reversal, adjoint, expectation values against a matrix-free tensor-product reference on random and basis vectors; non-trivial = contains Y"))
 SUBCHECKS[1].expected_classes = ["zero_operator", "constant_term", "hermitian", "padded"]
